@@ -388,6 +388,35 @@ pub fn run(ctx: &Ctx) -> Report {
         });
         rep.merge(trep);
     }
+    // array lengths x declared dof: sign and offset arrays of 0..8 entries (flow style) under dof {absent, 5, 6, nested 5}.
+    // Never a panic; anything but 5 or 6 entries is malformed and must be refused
+    {
+        let dofs: [(&str, &str); 4] = [("", ""), ("dof: 5\n", ""), ("dof: 6\n", ""), ("", "  dof: 5\n")];
+        let asizes = [dofs.len(), 9, 9];
+        let an = par::product(&asizes);
+        let arep = par::run(an, |idx, r| {
+            let mut ix = [0usize; 3];
+            par::decode(idx, &asizes, &mut ix);
+            let (top, nested) = dofs[ix[0]];
+            let signs: Vec<&str> = ["1", "-1", "1", "-1", "1", "1", "-1", "1"].iter().take(ix[1]).cloned().collect();
+            let offs: Vec<&str> = ["0.0", "0.1", "deg(-90.0)", "0", "deg(180)", "-0.3", "0.2", "0"].iter().take(ix[2]).cloned().collect();
+            let text = format!(
+                "opw_kinematics_geometric_parameters:\n  a1: 0.1\n  a2: -0.135\n  b: 0.0\n  c1: 0.615\n  c2: 0.705\n  c3: 0.755\n  c4: 0.085\n{nested}opw_kinematics_joint_offsets: [{}]\nopw_kinematics_joint_sign_corrections: [{}]\n{top}",
+                offs.join(", "),
+                signs.join(", ")
+            );
+            r.states += 1;
+            r.transitions += 1;
+            let wrong_len = !(ix[1] == 5 || ix[1] == 6) || !(ix[2] == 5 || ix[2] == 6);
+            match parse_bytes(text.as_bytes(), 6_000_000 + idx) {
+                Parsed::Panic(m) => r.fail("C19/no-panic/array-length", rn + 3_000_000 + idx, json!({"kind":"bytes","text": text}), format!("panicked: {m}")),
+                Parsed::Ok(p) if wrong_len => r.fail("C19/wrong-array-length-accepted", rn + 3_000_000 + idx, json!({"kind":"array-length","text": text}), format!("{} sign entries and {} offset entries were accepted: {:?} / {:?}", ix[1], ix[2], p.sign_corrections, p.offsets)),
+                Parsed::Ok(_) => r.sig("array-length:ok"),
+                Parsed::Err(_) => r.sig("array-length:err"),
+            }
+        });
+        rep.merge(arep);
+    }
     // array-element level: every offsets entry replaced by every malformed entry (flow and block style) and by the junk tokens
     for (ei, entry) in BAD_OFFSET_ENTRIES.iter().chain(JUNK.iter()).enumerate() {
         for idx in 0..6 {
@@ -458,7 +487,7 @@ pub fn run(ctx: &Ctx) -> Report {
         "round trip: 8x8x8 length choices (incl. 0, 1, negatives, 1e-7, 12345.678) x 9 offset patterns (incl. offsets of 3e-6, 5e-5, 2.5e-4 rad) x 4 sign patterns x dof -> to_yaml -> file -> \
          from_yaml_file; documented variants: number style x offset style x array length 6/5 x dof {{absent, top level, nested}} x arrays present/absent x \
          {{plain, comments, CRLF, trailing spaces}} against the harness's own expectation; no panic: all 1- and 2-edit deviations of the documented file \
-         ({} single edits), all token strings up to length {maxlen} over a 22-token alphabet (incl. a bare `deg(` and `)`), every offsets entry replaced by malformed deg() forms (must be an error, not a misreading), every byte string of length <= 2, 10 special byte strings; signature = outcome class",
+         ({} single edits), all token strings up to length {maxlen} over a 22-token alphabet (incl. a bare `deg(` and `)`), every offsets entry replaced by malformed deg() forms (must be an error, not a misreading), every byte string of length <= 2, 10 special byte strings, sign / offset arrays of 0..8 entries under dof {{absent, 5, 6, nested 5}} (no panic; refused unless 5 or 6 entries); signature = outcome class",
         n1
     );
     rep.set("axes", json!({"round_trip_records": rn, "variants": vs.len(), "single_edits": n1, "token_alphabet": 20, "token_max_len": maxlen}));
@@ -473,6 +502,11 @@ pub fn replay(case: &Value) -> Vec<String> {
         }
         "round-trip-params" => eval_round_trip(&params_from_json(&case["params"]), 1),
         "variant" => eval_variant(&variants()[case["index"].as_u64().unwrap() as usize], 1),
+        "array-length" => match parse_bytes(case["text"].as_str().unwrap().as_bytes(), 2) {
+            Parsed::Panic(m) => Some(("C19/no-panic/array-length".to_string(), format!("panicked: {m}"))),
+            Parsed::Ok(p) => Some(("C19/wrong-array-length-accepted".to_string(), format!("accepted with signs {:?}", p.sign_corrections))),
+            Parsed::Err(_) => None,
+        },
         "malformed-offset" => match parse_bytes(case["text"].as_str().unwrap().as_bytes(), 1) {
             Parsed::Panic(m) => Some(("C19/no-panic".to_string(), format!("panicked: {m}"))),
             Parsed::Ok(p) => Some(("C19/malformed-offset-entry-accepted".to_string(), format!("parsed with offsets {:?}", p.offsets))),
